@@ -579,6 +579,50 @@
                 let line = err.lines().find(|l| l.contains("unsafe precondition") || l.contains("panicked")).unwrap_or("").to_string();
                 out(ub, format!("{}x{} ss({},{}): {}", a[0], a[1], a[2], a[3], if ub { format!("out-of-bounds write: {}", line) } else { format!("no UB observed ({})", line) }));
             }
+
+            // matrix: the C19 clauses on a fixed battery of fixed-point operands (structural errors do not depend on the operands)
+            "matrix" => {
+                use yuvxyb_math::{ColVector, Matrix, RowVector};
+                let sets: [[[i32; 3]; 3]; 3] = [[[3, -7, 1], [-5, 6, 8], [7, -2, -4]], [[8, 1, -3], [2, -6, 5], [-1, 4, 7]], [[1, 0, 0], [0, 0, 1], [0, 1, 0]]];
+                let g = |k: i32| f64::from(k) * 0.25;
+                let mut bad = Vec::new();
+                let tol = |got: f64, want: f64| (got - want).abs() <= 1e-5 * want.abs().max(1.0);
+                for a in sets.iter() { for b in sets.iter() {
+                    let ma = Matrix::new(RowVector::new(g(a[0][0]) as f32, g(a[0][1]) as f32, g(a[0][2]) as f32), RowVector::new(g(a[1][0]) as f32, g(a[1][1]) as f32, g(a[1][2]) as f32), RowVector::new(g(a[2][0]) as f32, g(a[2][1]) as f32, g(a[2][2]) as f32));
+                    let mb = Matrix::new(RowVector::new(g(b[0][0]) as f32, g(b[0][1]) as f32, g(b[0][2]) as f32), RowVector::new(g(b[1][0]) as f32, g(b[1][1]) as f32, g(b[1][2]) as f32), RowVector::new(g(b[2][0]) as f32, g(b[2][1]) as f32, g(b[2][2]) as f32));
+                    let (ra, rb) = (RowVector::new(g(a[0][0]) as f32, g(a[0][1]) as f32, g(a[0][2]) as f32), RowVector::new(g(b[1][0]) as f32, g(b[1][1]) as f32, g(b[1][2]) as f32));
+                    let (x, y) = (a[0], b[1]);
+                    let c = ra.cross(&rb).values();
+                    let ce = [g(x[1]) * g(y[2]) - g(x[2]) * g(y[1]), g(x[2]) * g(y[0]) - g(x[0]) * g(y[2]), g(x[0]) * g(y[1]) - g(x[1]) * g(y[0])];
+                    for i in 0..3 { if !tol(f64::from(c[i]), ce[i]) { bad.push(format!("cross[{}] {} vs {}", i, c[i], ce[i])); } }
+                    let de = g(x[0]) * g(y[0]) + g(x[1]) * g(y[1]) + g(x[2]) * g(y[2]);
+                    if !tol(f64::from(ra.dot(&rb)), de) { bad.push(format!("dot {} vs {}", ra.dot(&rb), de)); }
+                    let cm = ra.component_mul(&rb).values();
+                    for i in 0..3 { if !tol(f64::from(cm[i]), g(x[i]) * g(y[i])) { bad.push(format!("component_mul[{}]", i)); } }
+                    let sd = ra.scalar_div(1.75).values();
+                    for i in 0..3 { if !tol(f64::from(sd[i]), g(x[i]) / 1.75) { bad.push(format!("scalar_div[{}]", i)); } }
+                    let v = [g(b[2][0]) as f32, g(b[2][1]) as f32, g(b[2][2]) as f32];
+                    let (w1, w2) = (ma.mul_arr(v), ma.mul_vec(&ColVector::new(v[0], v[1], v[2])).values());
+                    let p = ma.mul_mat(mb.clone()).values();
+                    let t = ma.clone().transpose().values();
+                    for i in 0..3 {
+                        let e = g(a[i][0]) * g(b[2][0]) + g(a[i][1]) * g(b[2][1]) + g(a[i][2]) * g(b[2][2]);
+                        if !tol(f64::from(w1[i]), e) || !tol(f64::from(w2[i]), e) { bad.push(format!("mul_arr/mul_vec[{}]", i)); }
+                        for j in 0..3 {
+                            let e = g(a[i][0]) * g(b[0][j]) + g(a[i][1]) * g(b[1][j]) + g(a[i][2]) * g(b[2][j]);
+                            if !tol(f64::from(p[i][j]), e) { bad.push(format!("mul_mat[{}][{}]", i, j)); }
+                            if f64::from(t[i][j]) != g(a[j][i]) { bad.push(format!("transpose[{}][{}]", i, j)); }
+                        }
+                    }
+                    let det = g(a[0][0]) * (g(a[1][1]) * g(a[2][2]) - g(a[1][2]) * g(a[2][1])) - g(a[0][1]) * (g(a[1][0]) * g(a[2][2]) - g(a[1][2]) * g(a[2][0])) + g(a[0][2]) * (g(a[1][0]) * g(a[2][1]) - g(a[1][1]) * g(a[2][0]));
+                    if det.abs() >= 0.5 {
+                        let pi = ma.mul_mat(ma.invert()).values();
+                        for i in 0..3 { for j in 0..3 { if (f64::from(pi[i][j]) - if i == j { 1.0 } else { 0.0 }).abs() > 1e-4 { bad.push(format!("A*invert(A)[{}][{}] = {}", i, j, pi[i][j])); } } }
+                    }
+                } }
+                bad.sort(); bad.dedup();
+                out(!bad.is_empty(), if bad.is_empty() { "matrix algebra agrees with the definitions on the probe operands".to_string() } else { bad[..bad.len().min(5)].join("; ") });
+            }
             _ => { eprintln!("unknown replay kind {}", kind); std::process::exit(64); }
         }
     }
